@@ -21,12 +21,16 @@ DEFAULTS = {
 }
 KEYS = list(DEFAULTS)
 VECTOR_KEYS = {"pipeline.charge_collection.e1.arguments.vec"}
+# a text-valued argument (like the file names and option strings swept in real configurations); opt-in: spaces(with_names=True)
+NAME_KEY = "pipeline.charge_collection.e1.arguments.name"
+NAME_DEFAULT = "x"
+NAMES = ["b", "a", "zz", "img_01.fits", "Uniform"]
 
 
 def echo_pipeline(extra_groups=None):
     groups = {
         "charge_collection": [{"name": "e1", "func": "vprobes.models.echo", "enabled": True,
-                               "arguments": {"level": DEFAULTS[KEYS[0]], "vec": list(DEFAULTS[KEYS[1]]), "other": DEFAULTS[KEYS[2]], "tag": "e1"}}],
+                               "arguments": {"level": DEFAULTS[KEYS[0]], "vec": list(DEFAULTS[KEYS[1]]), "other": DEFAULTS[KEYS[2]], "tag": "e1", "name": NAME_DEFAULT}}],
         "charge_measurement": [{"name": "e2", "func": "vprobes.models.echo", "enabled": True,
                                 "arguments": {"level": DEFAULTS[KEYS[3]], "vec": [1.0, 1.0], "other": 0.0, "tag": "e2"}}],
     }
@@ -37,6 +41,8 @@ def echo_pipeline(extra_groups=None):
 
 
 def _values_for(key):
+    if key == NAME_KEY:
+        return st.lists(st.sampled_from(NAMES), min_size=1, max_size=3, unique=True)
     if key in VECTOR_KEYS:
         return st.lists(st.tuples(st.integers(0, 9), st.integers(0, 9)).map(list), min_size=1, max_size=3, unique_by=tuple)
     if key.endswith("quantum_efficiency"):
@@ -49,15 +55,16 @@ def _values_for(key):
 
 
 @st.composite
-def spaces(draw, modes=("product", "sequential", "custom"), max_params=4, allow_k1=False, max_runs=24):
+def spaces(draw, modes=("product", "sequential", "custom"), max_params=4, allow_k1=False, max_runs=24, with_names=False):
     mode = draw(st.sampled_from(list(modes)))
     dask = draw(st.booleans())
-    keys = draw(st.lists(st.sampled_from(KEYS), min_size=1, max_size=max_params, unique=True))
+    pool = KEYS + [NAME_KEY] if with_names and mode != "custom" else KEYS  # (a custom table holds numbers only)
+    keys = draw(st.lists(st.sampled_from(pool), min_size=1, max_size=max_params, unique=True))
     params = []
     for k in keys:
         vals = draw(_values_for(k))
         render = "list"
-        if k not in VECTOR_KEYS and all(isinstance(v, int) for v in vals) and draw(st.booleans()):
+        if k not in VECTOR_KEYS and k != NAME_KEY and all(isinstance(v, int) for v in vals) and draw(st.booleans()):
             render = "numpy"
         params.append({"key": k, "values": vals, "enabled": draw(st.sampled_from([True, True, True, False])), "render": render})
     if not any(p["enabled"] for p in params):
@@ -146,19 +153,20 @@ def reference_runs(case) -> list[dict]:
 
 def full_state(run: dict) -> dict:
     s = {k: (list(v) if isinstance(v, list) else v) for k, v in DEFAULTS.items()}
+    s[NAME_KEY] = NAME_DEFAULT
     s.update({k: (list(v) if isinstance(v, (list, tuple)) else v) for k, v in run.items()})
     return s
 
 
 def state_tuple(s: dict) -> tuple:
-    return tuple((k, tuple(float(x) for x in s[k]) if isinstance(s[k], (list, tuple)) else float(s[k])) for k in KEYS)
+    return tuple((k, tuple(float(x) for x in s[k]) if isinstance(s[k], (list, tuple)) else float(s[k])) for k in KEYS) + ((NAME_KEY, str(s.get(NAME_KEY, NAME_DEFAULT))),)
 
 
 def expected_pixel(s: dict) -> float:
-    from vprobes.models import encode
+    from vprobes.models import encode, name_code
 
     qe, t = s[KEYS[4]], s[KEYS[5]]
-    return encode(s[KEYS[0]], s[KEYS[1]], s[KEYS[2]], qe, t) + encode(s[KEYS[3]], [1.0, 1.0], 0.0, qe, t)
+    return encode(s[KEYS[0]], s[KEYS[1]], s[KEYS[2]], qe, t) + name_code(s.get(NAME_KEY, NAME_DEFAULT)) + encode(s[KEYS[3]], [1.0, 1.0], 0.0, qe, t)
 
 
 def applied_states(echo_log) -> list[tuple]:
@@ -167,7 +175,7 @@ def applied_states(echo_log) -> list[tuple]:
     cur = None
     for e in echo_log:
         if e["tag"] == "e1":
-            cur = {KEYS[0]: e["level"], KEYS[1]: e["vec"], KEYS[2]: e["other"], KEYS[4]: e["qe"], KEYS[5]: e["temperature"]}
+            cur = {KEYS[0]: e["level"], KEYS[1]: e["vec"], KEYS[2]: e["other"], KEYS[4]: e["qe"], KEYS[5]: e["temperature"], NAME_KEY: e["name"]}
         elif e["tag"] == "e2" and cur is not None:
             cur[KEYS[3]] = e["level"]
             out.append(state_tuple(cur))
@@ -223,7 +231,7 @@ def select_run(da, case, run: dict, run_index: int):
     for k, v in (run if case["mode"] != "sequential" else run).items():
         nm = names[k]
         if nm in sel.coords and k not in VECTOR_KEYS:
-            got = float(sel[nm].values)
-            if got != float(v):
+            got = sel[nm].values.item()
+            if (str(got) != str(v)) if isinstance(v, str) else (float(got) != float(v)):
                 raise LookupError(f"run {run_index}: coordinate {nm} is {got}, the run was made with {v}")
     return sel
